@@ -18,7 +18,12 @@ COQ_IMPORTS = ('From CPL Require Import Model.Base Model.Rules Model.Engine Mode
 NONTRIVIAL_RULE = ('non-trivial = the call returned and the predicate was consulted at least twice (one step or more); '
                    'the zero-step cases are counted separately in the distribution; distinct = distinct case dicts')
 EXHAUSTIVE = {'quick': False, 'thorough': False}
-NOTES = ['sweep: 1D rings N in 1..5 with r in 1..min(N,2), 2D grids up to 3x3 (thorough 4x4) with both neighbourhood types, '
+NOTES = ['a fifth of the sweep uses a predicate that overwrites the array it is given after answering (ScribblePred) and a '
+         'fifth one that keeps every array it was given and re-checks them at each later consultation and at the end '
+         '(RetainPred); the caller\'s array after the call and memory sharing of the result are checked by the oracle',
+         'bucket outofrange/*: rule results not representable in uint8; callable and fixed runs are compared with each '
+         'other on the implementation only (open finding cast-path); not compared in Coq',
+         'sweep: 1D rings N in 1..5 with r in 1..min(N,2), 2D grids up to 3x3 (thorough 4x4) with both neighbourhood types, '
          'H in 1..3, dtypes int32/int64/uint8/float64, predicates constant-false / t<k / scripted answers / '
          'until_fixed_point, memoize in False/True/recursive for the pure family',
          'bucket ufp/float_tiny: float automata whose consecutive states differ by a few units of 2^-40 (far below any '
@@ -169,7 +174,13 @@ def generate(rng, tier):
                                     c = _mk(rng, '%dd/%s/%s/%s' % (dim, tag, fam, 'memo' if memo else 'plain'),
                                             dim, shape, r, nb, H, dtype, fam, memo, pred)
                                     if c is not None:
+                                        pm = {3: 'scribble', 4: 'retain'}.get(i % 5)
+                                        if pm:      # the predicate writes into / keeps its argument
+                                            c = dict(c, pmode=pm, kind=c['kind'] + '+pred_' + pm)
                                         yield c
+    # open finding cast-path: reported as KNOWN-FINDING, never compared in Coq
+    for c in outofrange_cases(rng, tier):
+        yield c
     # float automata with dyadic states that creep by units of 2^-40
     for c in tiny_cases(rng, tier):
         yield c
@@ -301,6 +312,72 @@ def tiny_cases(rng, tier):
                         yield c
                         break
 
+
+# ---------------------------------------------------------------- predicates that misbehave towards their argument
+class ScribblePred:
+    """answers like the wrapped predicate, THEN overwrites the array it was given.  The engine hands the
+    predicate np.array(array), a copy, so nothing may change; the model passes values."""
+    def __init__(self, inner):
+        self.inner, self.log = inner, inner.log
+
+    def __call__(self, ca, t):
+        b = self.inner(ca, t)
+        try:
+            ca[...] = 0
+        except (ValueError, TypeError):
+            pass
+        return b
+
+
+class RetainPred:
+    """keeps a reference to every array it is given (and a private copy) and checks at every later
+    consultation, and at the end, that none of them has changed"""
+    def __init__(self, inner):
+        self.inner, self.log, self.kept, self.ok = inner, inner.log, [], True
+
+    def intact(self):
+        return self.ok and all(np.array_equal(a, b) for a, b in self.kept)
+
+    def __call__(self, ca, t):
+        self.ok = self.intact()
+        b = self.inner(ca, t)
+        self.kept.append((ca, np.array(ca, copy=True)))
+        return b
+
+
+class SumOffset:
+    """sum of the neighbourhood + k: with k = -7 on small uint8 states the result is not representable"""
+    def __init__(self, k):
+        self.k = k
+
+    def __call__(self, n, c, t):
+        return sum(int(x) for x in np.asarray(n).ravel()) + self.k
+
+
+def outofrange_cases(rng, tier):
+    """bucket outofrange/*: open finding cast-path (known_findings.json): nothing is compared in Coq"""
+    base = [([[1, 2, 3, 4]], -7, 3)]
+    for i in range(7 if tier == 'quick' else 40):
+        N = rng.randint(3, 6)
+        base.append(([[rng.randint(0, 4) for _ in range(N)] for _ in range(rng.randint(1, 2))],
+                     rng.choice([-7, -20, 300, 250]), rng.randint(2, 4)))
+    for hist, k, lim in base:
+        for memo in (False, True):
+            yield {'kind': 'outofrange/%s' % ('memo' if memo else 'plain'), 'finding': 'cast-path', 'dim': 1, 'r': 1,
+                   'nb': '-', 'dtype': 'uint8', 'memo': memo, 'hist': hist, 'pred': {'kind': 'lt', 'k': lim},
+                   'rule': {'fam': 'sumoffset', 'k': k}}
+
+
+def _run_outofrange(cpl, c):
+    def arr(r):
+        return ['ok', np.asarray(r[1]).tolist()] if r[0] == 'ok' else list(r)
+    p = PredLt(c['pred']['k'])
+    dyn = call_impl(lambda: cpl.evolve(np.array(c['hist'], dtype=c['dtype']), timesteps=p,
+                                       apply_rule=SumOffset(c['rule']['k']), r=c['r'], memoize=c['memo']))
+    fix = call_impl(lambda: cpl.evolve(np.array(c['hist'], dtype=c['dtype']), timesteps=c['pred']['k'],
+                                       apply_rule=SumOffset(c['rule']['k']), r=c['r'], memoize=c['memo']))
+    return ['ok', {'callable': arr(dyn), 'fixed_run': arr(fix)}]
+
 # ---------------------------------------------------------------- implementation
 class Capped:
     """stops a run that the generator promised would stop: after CAP consultations raise"""
@@ -326,12 +403,14 @@ def ints(x):
     return int(x)
 
 
-def make_pred(cpl, pred):
+def make_pred(cpl, pred, pmode=None):
     if pred['kind'] == 'lt':
-        return PredLt(pred['k'])
-    if pred['kind'] == 'script':
-        return PredScript(list(pred['bs']))
-    return PredLogged(Capped(cpl.until_fixed_point()))
+        p = PredLt(pred['k'])
+    elif pred['kind'] == 'script':
+        p = PredScript(list(pred['bs']))
+    else:
+        p = PredLogged(Capped(cpl.until_fixed_point()))
+    return {'scribble': ScribblePred, 'retain': RetainPred}.get(pmode, lambda x: x)(p)
 
 
 def call_evolve(cpl, c, ca, timesteps, rule):
@@ -342,14 +421,18 @@ def call_evolve(cpl, c, ca, timesteps, rule):
 
 def run_impl(c):
     import cellpylib as cpl
+    if c.get('finding') == 'cast-path':
+        return _run_outofrange(cpl, c)
     ca = build_ca(c)
-    pred = make_pred(cpl, c['pred'])
+    pred = make_pred(cpl, c['pred'], c.get('pmode'))
     res = call_impl(lambda: call_evolve(cpl, c, ca, pred, build_rule(c)))
     if res[0] != 'ok':
         return list(res)
     out = np.asarray(res[1])
     o = {'out': conv(c, out), 'plog': [[conv(c, s), int(t)] for (s, t) in pred.log],
-         'shape': [int(x) for x in out.shape], 'dtype': str(out.dtype)}
+         'shape': [int(x) for x in out.shape], 'dtype': str(out.dtype),
+         'after': conv(c, ca), 'fresh': bool(isinstance(res[1], np.ndarray) and not np.shares_memory(res[1], ca)),
+         'retained_ok': bool(pred.intact()) if c.get('pmode') == 'retain' else True}
     # the sentence "equals the fixed-count evolution of the same length", on the implementation alone
     k1 = len(pred.log)
     ca2 = build_ca(c)
@@ -376,6 +459,8 @@ def _wellformed(c, o):
 
 
 def to_coq(c, obs):
+    if c.get('finding') == 'cast-path':
+        return 'CSkip'          # nothing compared in Coq: the model has one cast, the code has two
     one = c['dim'] == 1
     carr = cgrid if one else chist
     if obs[0] == 'ok' and not _wellformed(c, obs[1]):
@@ -392,14 +477,28 @@ def to_coq(c, obs):
 
 
 def nontrivial(c, obs):
+    if c.get('finding'):
+        return False
     return obs[0] == 'ok' and len(obs[1]['plog']) >= 2
 
 
 # ---------------------------------------------------------------- the property's own oracle
 def oracle(c, obs):
+    if c.get('finding') == 'cast-path':
+        o = obs[1]
+        if o['callable'] != o['fixed_run']:
+            return ('callable run differs from the fixed run on out-of-range results: callable %s, fixed %s'
+                    % (o['callable'][:2] if o['callable'][0] != 'ok' else 'returned', o['fixed_run'][:2] if o['fixed_run'][0] != 'ok' else 'returned'))
+        return None
     if obs[0] != 'ok':
         return 'the call raised %s' % obs[1]
     o = obs[1]
+    if o.get('after') is not None and o['after'] != c['hist']:
+        return "the caller's array was modified"
+    if not o.get('fresh', True):
+        return "the result shares memory with the caller's array"
+    if not o.get('retained_ok', True):
+        return 'an array handed to the predicate changed after the predicate returned'
     if not _wellformed(c, o):
         return 'the result or a predicate argument is not an integer-valued array of the expected rank'
     plog, out, hist = o['plog'], o['out'], c['hist']
